@@ -1,7 +1,7 @@
 #![allow(clippy::derive_partial_eq_without_eq)]
 use std::{
     collections::hash_map::{Entry, HashMap},
-    hash::{BuildHasherDefault, Hash},
+    hash::{BuildHasherDefault, Hash, Hasher},
 };
 
 use cfgrammar::{PIdx, SIdx, Symbol, yacc::YaccGrammar};
@@ -16,10 +16,49 @@ use cfgrammar::yacc::firsts::YaccFirsts;
 /// The type of "context" (also known as "lookaheads")
 pub(crate) type Ctx = Vob;
 
+/// An FNV hasher that hashes every integer that fits in 32 bits as a `u32`. The items of an
+/// [Itemset] are keyed by `StorageT`-sized indices, and the order in which they are iterated over
+/// decides the order in which states are created and merged: with this hasher that order -- and
+/// hence the state graph -- is the same whichever `StorageT` is used.
+#[derive(Default)]
+pub struct ItemHasher(FnvHasher);
+
+impl Hasher for ItemHasher {
+    fn finish(&self) -> u64 {
+        self.0.finish()
+    }
+
+    fn write(&mut self, bytes: &[u8]) {
+        self.0.write(bytes)
+    }
+
+    fn write_u8(&mut self, i: u8) {
+        self.0.write_u32(u32::from(i))
+    }
+
+    fn write_u16(&mut self, i: u16) {
+        self.0.write_u32(u32::from(i))
+    }
+
+    fn write_u64(&mut self, i: u64) {
+        match u32::try_from(i) {
+            Ok(j) => self.0.write_u32(j),
+            Err(_) => self.0.write_u64(i),
+        }
+    }
+
+    fn write_usize(&mut self, i: usize) {
+        match u32::try_from(i) {
+            Ok(j) => self.0.write_u32(j),
+            Err(_) => self.0.write_usize(i),
+        }
+    }
+}
+
 #[derive(Clone, Debug, PartialEq)]
 #[cfg_attr(feature = "serde", derive(Serialize, Deserialize))]
 pub struct Itemset<StorageT: Eq + Hash> {
-    pub items: HashMap<(PIdx<StorageT>, SIdx<StorageT>), Ctx, BuildHasherDefault<FnvHasher>>,
+    pub items: HashMap<(PIdx<StorageT>, SIdx<StorageT>), Ctx, BuildHasherDefault<ItemHasher>>,
 }
 
 impl<StorageT: 'static + Hash + PrimInt + Unsigned> Itemset<StorageT>
@@ -29,7 +68,7 @@ where
     /// Create a blank Itemset.
     pub fn new(_: &YaccGrammar<StorageT>) -> Self {
         Itemset {
-            items: HashMap::with_hasher(BuildHasherDefault::<FnvHasher>::default()),
+            items: HashMap::with_hasher(BuildHasherDefault::<ItemHasher>::default()),
         }
     }
 
